@@ -3,6 +3,7 @@ CONSTANTS
   Scale = 1
   TMax = 8
 INVARIANT LawSourceUnique
+INVARIANT LawIntervals
 INVARIANT LawSourceTotal
 INVARIANT LawHorizon
 INVARIANT LawGap
